@@ -5,7 +5,7 @@ from .modelchecks import ModelCheck
 class C01(ModelCheck):
     id = "C01"
     profile = "replay"
-    profiles = ['replay', 'replay', 'mixed']
+    profiles = ['replay', 'replay', 'mixed', 'shared']
     usage_mode = "any"
     nt_rule = staticmethod(lambda ev: ev.get("replay_with_other_busy") or (ev.get("reopen_after_deletion") and ev.get("adds")))
     rule = "Hypothesis draws flow-structured histories (profiles replay/mixed: 2 apps sharing mailbox ids' shapes, adds from several sides, drops, closes to deletion, sweeps past expiry, restarts, re-opens); on every successful open the replayed (side, phase, body, id) multiset must equal the model's stored messages of that mailbox incarnation, and after every op the messages table must equal the model's. Non-trivial = a history with an open that replayed >=1 message while another mailbox/app also held messages, or a re-open of an id after its deletion (with adds); distinct by hash of (config, concrete script)."
